@@ -29,6 +29,7 @@ func runC08(p *core.Program, r *core.Report) {
 	c08R3(p, r, pl)
 	c08R4(p, r, pl)
 	c08R5(p, r)
+	c08R6(p, r)
 }
 
 func c08R1(p *core.Program, r *core.Report, pl *pipeline) {
@@ -362,6 +363,43 @@ func c08R3(p *core.Program, r *core.Report, pl *pipeline) {
 	})
 	_ = info
 	r.Check(ok && n >= 2, rule, ld, "an unreadable gengo.sum yields a nil file", ld.Node().Pos(), "every error return is `return nil, err`", "Load returns a non-nil (empty) file together with an error: with it, missing entries compare as \"\" and nothing protects against skipping")
+	// ... on every path: once reading the file failed, no return hands out a file - also not with a nil error
+	// ("a missing gengo.sum is an empty gengo.sum" removes the nil guard the skip predicate relies on)
+	{
+		fl := flatten(p, ld)
+		finfo := fl.Info()
+		g := graph(fl)
+		nread, leak := 0, ""
+		for _, eb := range errBranches(fl) {
+			defs, _ := reachingDefs(g, eb.v, cfgx.Point{B: eb.br.B, I: len(eb.br.B.Nodes) - 1})
+			fromRead := false
+			for _, d := range defs {
+				if len(core.CallsTo(finfo, d.Node(), true, "os.ReadFile", "os.Open", "os.OpenFile", "io.ReadAll")) > 0 {
+					fromRead = true
+				}
+			}
+			if !fromRead {
+				continue
+			}
+			nread++
+			tp, found := g.Reach(cfgx.Point{B: eb.br.B.Succs[eb.nonNil], I: 0}, true, cfgx.Query{Target: func(q cfgx.Point) bool {
+				ret, isRet := q.Node().(*ast.ReturnStmt)
+				if !isRet || len(ret.Results) != 2 {
+					return false
+				}
+				id, isID := ast.Unparen(ret.Results[0]).(*ast.Ident)
+				return !isID || id.Name != "nil"
+			}})
+			if found {
+				leak = core.ExprStr(tp.Node())
+			}
+		}
+		if nread == 0 {
+			r.Anchor(rule, "error test of the read of gengo.sum in sumfile.Load")
+		} else {
+			r.Check(leak == "", rule, ld, "after a failed read no file is handed out", ld.Node().Pos(), "every return reachable from the error edge of the read returns a nil file", "`"+leak+"` is reachable after reading gengo.sum failed: a missing or unreadable gengo.sum yields a (non-nil, empty) file, the skip predicate's nil guard no longer fires and a package whose current sum is empty too (its directory could not be hashed) is skipped as cached")
+		}
+	}
 	e := pl.execute
 	einfo := e.Info()
 	stored := false
@@ -751,4 +789,63 @@ func c08R5(p *core.Program, r *core.Report) {
 	}
 	r.Check(okR, rule, ld, "reader: line -> whitespace fields -> (path, hash), length-guarded", ld.Node().Pos(), "Lines + Fields, Data[parts[0]] = parts[1] under len(parts) >= 2", whyR)
 	r.Check(okW && okR, rule, nil, "reader and writer agree on the format", token.NoPos, "separator is whitespace other than newline, terminator is newline", "writer and reader of gengo.sum disagree on the line format: reading the file back does not yield the same mapping")
+}
+
+// c08R6: "Force makes it regenerate", "with All set": the skip decision reads Force and All from the context's
+// arguments. They must be the caller's: every GeneratorArgs value built in the library (a copy made to fill defaults,
+// to normalise paths ...) carries every field of the type - a field left out of such a literal silently takes its zero value.
+func c08R6(p *core.Program, r *core.Report) {
+	const rule = "R6"
+	r.Floor(rule, 1)
+	n := 0
+	for _, f := range p.Funcs() {
+		if f.Body == nil || f.Parent != nil {
+			continue
+		}
+		info := f.Info()
+		ast.Inspect(f.Body, func(m ast.Node) bool {
+			cl, ok := m.(*ast.CompositeLit)
+			if !ok || core.NamedTypeName(info.TypeOf(cl)) != core.G("pkg/gengo.GeneratorArgs") {
+				return true
+			}
+			st, _ := info.TypeOf(cl).Underlying().(*types.Struct)
+			if st == nil {
+				return true
+			}
+			n++
+			set := map[string]bool{}
+			positional := false
+			for _, el := range cl.Elts {
+				if kv, isKV := el.(*ast.KeyValueExpr); isKV {
+					if id, isID := kv.Key.(*ast.Ident); isID {
+						set[id.Name] = true
+					}
+				} else {
+					positional = true
+				}
+			}
+			var missing []string
+			for i := 0; i < st.NumFields() && !positional; i++ {
+				if !set[st.Field(i).Name()] {
+					missing = append(missing, st.Field(i).Name())
+				}
+			}
+			// a literal that copies from another value of the type (mentions its fields) must be complete
+			copies := false
+			ast.Inspect(cl, func(mm ast.Node) bool {
+				if sel, isSel := mm.(*ast.SelectorExpr); isSel {
+					if fld := core.FieldOf(info, sel); fld != nil && ownerOf(fld) != nil && ownerOf(fld).Name() == "GeneratorArgs" {
+						copies = true
+					}
+				}
+				return true
+			})
+			r.Check(!copies || len(missing) == 0, rule, f, "a copy of the run's arguments carries every field", cl.Pos(), "all fields of GeneratorArgs are set in the literal",
+				"the library builds a GeneratorArgs from another one without the field(s) "+strings.Join(missing, ", ")+": the context then consults the copy, where they are zero - Force no longer forces, All no longer selects")
+			return true
+		})
+	}
+	if n == 0 {
+		r.OK(rule, nil, "the library builds no GeneratorArgs value of its own", token.NoPos, "the context consults the caller's arguments")
+	}
 }
